@@ -15,7 +15,7 @@ func init() {
 		ID:    "C19",
 		Level: "exploration",
 		Rule: "strata by i mod 4: (0) accept side, refusal: Connect GET (version header or connect=v1) on methods of every idempotency level -> 405 + Allow unless NO_SIDE_EFFECTS, never dispatched; " +
-			"(1) accept side, equivalence: GET on side-effect-free methods with every query encoding (base64 absent/0/1, padded or unpadded URL-safe base64, compression on/off, proto/json) -> the backend-decoded message equals the " +
+			"(1) accept side, equivalence: GET on side-effect-free methods with every query encoding (base64 absent/0/1 for every codec and for compressed messages alike, padded or unpadded URL-safe base64, compression on/off, proto/json) -> the backend-decoded message equals the " +
 			"message a POST with the same content delivers; (2) issue side: every client form x idempotency level x stable/non-stable target codec (a JSON codec without MarshalAppendStable) x compression -> a backend GET implies " +
 			"the client's own request was a GET, the method is side-effect-free, the target codec is stable and the URL fits; a backend POST carries the message in its body; (3) self-calibrated URL-length boundary: " +
 			"the URL length U observed under a huge limit, then limits U-1 (must be POST), U and U+1 (must be GET). non-trivial = the client used GET or the backend saw GET; distinct by (stratum, form, method, codecs, encoding choices)",
